@@ -612,6 +612,10 @@ func (x *executor) cookiesOf(h http.Header) []Cookie {
 			// a deletion: must not carry an ID
 			if len(c.Value) == 24 {
 				out = append(out, Cookie{Kind: "bad", N: 4, Raw: line})
+			} else if c.Domain != tmpl.Domain || c.Path != tmpl.Path {
+				// a browser identifies a cookie by name, domain and path: this
+				// one does not replace the live cookie it is meant to expire
+				out = append(out, Cookie{Kind: "bad", N: 6, Raw: line})
 			} else {
 				out = append(out, Cookie{Kind: "delete", Raw: line})
 			}
